@@ -186,6 +186,37 @@ func (b *builder) sliceLen() int {
 	}
 }
 
+// cheapElem: fixed-size byte arrays, byte strings, and (pointers to) structs made of scalars, byte arrays / strings
+// and big integers only - long lists of them stay small enough to generate often.
+func cheapElem(t reflect.Type) bool {
+	if t.Kind() == reflect.Ptr {
+		t = t.Elem()
+	}
+	switch t.Kind() {
+	case reflect.Array:
+		return t.Elem().Kind() == reflect.Uint8
+	case reflect.Slice:
+		return t.Elem().Kind() == reflect.Uint8
+	case reflect.Struct:
+		if t == bigIntPtrType.Elem() || t.Size() > 160 {
+			return false
+		}
+		for i := 0; i < t.NumField(); i++ {
+			ft := t.Field(i).Type
+			switch {
+			case t.Field(i).PkgPath != "":
+				return false
+			case ft == bigIntPtrType, flat(ft), ft.Kind() == reflect.String:
+			case ft.Kind() == reflect.Slice && ft.Elem().Kind() == reflect.Uint8:
+			default:
+				return false
+			}
+		}
+		return true
+	}
+	return false
+}
+
 func (b *builder) build(typ reflect.Type) reflect.Value {
 	v := reflect.New(typ).Elem()
 	b.fillValue(v, "")
@@ -216,6 +247,10 @@ func (b *builder) fillValue(v reflect.Value, tag string) {
 			return
 		}
 		n := b.sliceLen()
+		if cheapElem(typ.Elem()) && b.t.n(24) == 0 {
+			n = 100 + b.t.n(1200) // now and then a long list of small elements
+			b.label("long-list")
+		}
 		s := reflect.MakeSlice(typ, n, n)
 		for i := 0; i < n; i++ {
 			b.fillValue(s.Index(i), "")
